@@ -867,6 +867,40 @@ def respell(rng, k, p=0.45):
             out.append(fmt % c)
     return "".join(out)
 
+def canon_key(k):
+    """the minimal JSON spelling of a member name: only what must be escaped is escaped"""
+    out = []
+    for ch in k:
+        if ch == '"':
+            out.append('\\"')
+        elif ch == '\\':
+            out.append('\\\\')
+        elif ord(ch) < 0x20:
+            out.append('\\u%04x' % ord(ch))
+        else:
+            out.append(ch)
+    return "".join(out)
+
+# member names that NEED an escape in JSON (quote, backslash, control characters), in particular names in which a
+# literal backslash is followed by a letter that would itself form an escape (`\n` as two characters, `\u0041` as six,
+# `C:\temp\new`), a trailing backslash, and runs of backslashes: decoding them in two passes or by substring
+# replacement goes wrong exactly here
+ESCAPE_NAMES = ['\\n', 'a\\nb', '\\"', '\\\\', 'a\\', '\\u0041', '\\/', '\\t\\r', '"', '\n', '\\\n', 'C:\\temp\\new',
+                '\\b\\f', 'x\\"y', '\\\\n', '\\\\\\t', '\t', '\x00', '\x1f', '\\u', 'q"\\', '/', '\\\\u00e9', '\u2028\\r']
+
+def escape_name_sets():
+    """name sets (each a list of distinct names) for one-object documents"""
+    n = ESCAPE_NAMES
+    return [[k] for k in n] + [n[i:i + 3] for i in range(0, len(n), 3)] + [n]
+
+def escape_name_texts(rng, names, variants=5):
+    """(expected shape text, [JSON texts]) for the object {name: 1 for name in names}: first text is the canonical
+    spelling, the others re-spell every name at random (respell)"""
+    exp = 'O0{' + ','.join(hexs(k) + ':#0' for k in sorted(names, key=lambda x: x.encode())) + '}'
+    def text(f):
+        return '{' + ','.join('"%s":1' % f(k) for k in names) + '}'
+    return exp, [text(canon_key)] + [text(lambda k: respell(rng, k)) for _ in range(variants)]
+
 def key_docs():
     """documents whose member names exercise the decoding of names: astral characters, U+2028, DEL, U+FFFF,
     combining marks, long names, shared prefixes, case-only differences"""
